@@ -157,6 +157,43 @@ Proof.
   f_equal. f_equal. unfold yoe, y'. lia.
 Qed.
 
+(* the other direction: every day number is the day count of exactly the valid date civil_from_days returns (sweep over one era) *)
+Definition check_inv (doe : Z) : bool :=
+  let '(yoe, m, d) := of_doe doe in
+  (0 <=? yoe) && (yoe <? 400) && (1 <=? m) && (m <=? 12) && (1 <=? d) && (d <=? dim (yoe + (if m <=? 2 then 1 else 0)) m) && (doe_of yoe m d =? doe).
+Definition check_inv2 (q r : Z) : bool := let doe := q * 1000 + r in negb (doe <? 146097) || check_inv doe.
+Lemma sweep_inv_true : forallb (fun q => forallb (fun r => check_inv2 q r) (zrange 0 1000)) (zrange 0 147) = true. Proof. vm_compute. reflexivity. Qed.
+Lemma sweep_inv_spec doe : 0 <= doe < 146097 -> check_inv doe = true.
+Proof.
+  intros H. pose proof (Z.div_mod doe 1000 ltac:(lia)) as DM. pose proof (Z.mod_pos_bound doe 1000 ltac:(lia)) as MB.
+  assert (Hq : 0 <= doe / 1000 < 147) by (split; [apply Z.div_pos; lia|apply Z.div_lt_upper_bound; lia]).
+  pose proof (forallb_zrange _ 0 147 sweep_inv_true (doe / 1000) ltac:(lia)) as S1. cbv beta in S1.
+  pose proof (forallb_zrange _ 0 1000 S1 (doe mod 1000) ltac:(lia)) as S2. unfold check_inv2 in S2.
+  replace (doe / 1000 * 1000 + doe mod 1000) with doe in S2 by lia.
+  replace (doe <? 146097) with true in S2 by (symmetry; apply Z.ltb_lt; lia). exact S2.
+Qed.
+Theorem days_roundtrip z : let '(y, m, d) := civil_from_days z in valid_date y m d = true /\ days_from_civil y m d = z.
+Proof.
+  unfold civil_from_days.
+  set (z' := z + 719468). set (era := z' / 146097). set (doe := z' - era * 146097).
+  assert (Hdoe : 0 <= doe < 146097). { unfold doe, era. pose proof (Z.div_mod z' 146097 ltac:(lia)). pose proof (Z.mod_pos_bound z' 146097 ltac:(lia)). lia. }
+  pose proof (sweep_inv_spec doe Hdoe) as C. unfold check_inv in C.
+  destruct (of_doe doe) as [[yoe m] d].
+  repeat (apply andb_prop in C as [C ?]).
+  set (c := if m <=? 2 then 1 else 0) in *.
+  assert (Hy : 0 <= yoe < 400) by lia. assert (Hm : 1 <= m <= 12) by lia.
+  split.
+  - unfold valid_date. replace (yoe + era * 400 + c) with ((yoe + c) + 400 * era) by lia. rewrite dim_periodic.
+    repeat (apply andb_true_intro; split); lia.
+  - unfold days_from_civil. fold c. replace (yoe + era * 400 + c - c) with (yoe + era * 400) by lia.
+    rewrite Z.div_add by lia. rewrite (Z.div_small yoe 400) by lia. cbn [Z.add].
+    replace (yoe + era * 400 - era * 400) with yoe by lia.
+    assert (E : doe_of yoe m d = doe) by lia. rewrite E. unfold doe, z'. lia.
+Qed.
+(* day_of_week: Monday = 0, a period of 7 days, Thursday on the epoch day *)
+Theorem weekday_model : forall d, (d + 7 + 3) mod 7 = (d + 3) mod 7 /\ 0 <= (d + 3) mod 7 < 7.
+Proof. intros d. split. replace (d + 7 + 3) with (d + 3 + 1 * 7) by lia. apply Z.mod_add. lia. apply Z.mod_pos_bound. lia. Qed.
+
 (* the conversions used by the builtin models are these *)
 Close Scope R_scope.
 Theorem C16_ms_exact (M:Z) : (Z.abs M <= 2^50)%Z -> to_i64 (fround (fmul (fdiv (of_int M) fD) fD)) = M.
